@@ -1,6 +1,7 @@
 import GomlVerif.Model.Go
 import GomlVerif.Model.FloatFmt
 import GomlVerif.Gen.GoPrintTables
+import GomlVerif.Model.GoLex
 /-!
 Model of the Go printer `crates/compiler/src/pprint/go_pprint.rs` — the LAST step before the user sees Go
 text — over the Go AST of `Model/Go.lean`.
@@ -704,5 +705,69 @@ def glueFreeFrom : Option Tok → List Piece → Bool
   | _, _ :: r => glueFreeFrom none r
 
 def glueFree (ps : List Piece) : Bool := glueFreeFrom none ps
+
+/-! ## what Go's lexer (`Model/GoLex.lean`) must return on the rendered pieces -/
+
+def Tok.lt : Tok → GoLex.LTok
+  | .ident s => ⟨.ident, s.toList⟩
+  | .kw s => ⟨.kw, s.toList⟩
+  | .num s => ⟨.num, s.toList⟩
+  | .str s => ⟨.str, s.toList⟩
+  | .sym s => ⟨.sym, s.toList⟩
+
+/-- the token list of a piece list with Go's automatic semicolons: `fl` = the last token of the current line
+    triggers one at the next newline / at the end -/
+def expectToks (fl : Bool) : List Piece → List GoLex.LTok
+  | [] => if fl then [GoLex.semiTok] else []
+  | .tok t :: r => t.lt :: expectToks (GoLex.semiAfter t.lt) r
+  | .sp :: r => expectToks fl r
+  | .nl :: r => (if fl then [GoLex.semiTok] else []) ++ expectToks false r
+
+/-- a qualified name `pkg.F` (one `ident` piece of the model, `Expr::Var` carries such names) as Go's tokens -/
+def splitQualified : List Char → List (List Char)
+  | [] => [[]]
+  | c :: cs =>
+    match splitQualified cs with
+    | w :: ws => if c == '.' then [] :: w :: ws else (c :: w) :: ws
+    | [] => [[c]]
+
+def Piece.split : Piece → List Piece
+  | .tok (.ident s) =>
+      if s.toList.contains '.' && !s.toList.contains '\x00' then
+        ((splitQualified s.toList).map fun w => Piece.tok (.ident (String.ofList w))).intersperse (.tok (.sym "."))
+      else [.tok (.ident s)]
+  | p => [p]
+
+def isNumText (cs : List Char) : Bool :=
+  let ip := cs.takeWhile GoLex.isDigit
+  !ip.isEmpty &&
+    (match cs.dropWhile GoLex.isDigit with
+     | [] => true
+     | '.' :: f => f.all GoLex.isDigit
+     | _ => false)
+
+/-- the token texts `lex_render_tokens` is stated for: an identifier of Go's grammar that is not a keyword, a keyword,
+    digits with an optional `.digits` (what `Expr::Int` and `go_float_literal` print for finite values), a string token
+    that is `"` + `escape_go_string(v)` + `"` for some `v`, one of Go's operators -/
+def Tok.wf : Tok → Bool
+  | .ident s =>
+      (match s.toList with
+       | c :: cs => GoLex.isLetter c && cs.all GoLex.isIdChar && !GoLex.keywords.contains (c :: cs)
+       | [] => false)
+  | .kw s => GoLex.keywords.contains s.toList
+  | .num s => isNumText s.toList
+  | .str s =>
+      (match s.toList with
+       | '"' :: b =>
+         (match GoPrint.lexStr .normal b with
+          | some (v, []) => b == escapeChars v ++ ['"']
+          | _ => false)
+       | _ => false)
+  | .sym s => GoLex.ops1.contains s.toList || GoLex.ops2.contains s.toList || GoLex.ops3.contains s.toList
+
+def piecesWf : List Piece → Bool
+  | [] => true
+  | .tok t :: r => t.wf && piecesWf r
+  | _ :: r => piecesWf r
 
 end Goml.GoPrint
